@@ -65,3 +65,8 @@ def run(ctx, prop):
         bad = [o for o in sc.obs if o[0] == "C08.R1.unsafe-site-discharged" and not o[2] and o[1].startswith("unguarded|")]
         ctx.ob("C08.positive-control.unguarded-unsafe", "controls/pos", "controls/pos/src/lib.rs", bool(bad), "positive-control",
                "the ledger reports the unguarded get_unchecked in the control crate: %s" % bool(bad), nontrivial=False)
+    elif prop == "C17":
+        import c17
+        hits = c17.narrow_complement_masks(F)
+        ctx.ob("C17.positive-control.narrow-mask", "controls/pos", "controls/pos/src/lib.rs", any("narrow_mask" in h[0] for h in hits), "positive-control",
+               "the mask-width rule fires on `n & !(u64::BITS - 1) as usize` in the control crate: %s" % hits, nontrivial=False)
